@@ -1,6 +1,7 @@
 import RPVerif.Lemmas.Sched
 import RPVerif.Lemmas.NodeList
 import RPVerif.Lemmas.SchedRun
+import RPVerif.Gen.NodeList
 
 /-!
 # C03 — Released resources come back exactly once and completely
@@ -102,6 +103,28 @@ theorem C03_app_slots_witness :
   decide
 
 /-! ## the application-level slot finder -/
+
+open RPVerif.NodeList in
+/-- **releases from several application threads**: with the code as it is (`Gen.deallocInLock`: `deallocate_slot`
+    changes the node inside its lock; `Gen.findSlotBooksInLock`), any interleaving of the threads' requests and
+    releases on a node leaves the node the same operations leave one after the other, in the order the lock let them
+    in - no release is lost or half applied, so `C03_nodelist_release_inverse` and the history theorems below speak
+    about concurrent use as well -/
+theorem C03_node_threads (n : ANode) (steps : List CStep) :
+    (crun Gen.findSlotBooksInLock Gen.deallocInLock ⟨n, [], [], []⟩ steps).node = (seqCalls n steps).1 := by
+  have e : Gen.findSlotBooksInLock = true := by decide
+  have e2 : Gen.deallocInLock = true := by decide
+  rw [e, e2]
+  exact (crun_atomic steps ⟨n, [], [], []⟩ rfl rfl).1
+
+open RPVerif.NodeList in
+/-- a release outside the lock can be lost: the thread that releases read the node before another thread's grant and
+    writes its stale figures back (here: 100 of lfs granted in between vanish from the node's books) -/
+theorem C03_node_threads_witness :
+    (crun true false ⟨⟨0, [some 16, some 0], [], 900, 0⟩, [], [], []⟩
+       [.release 0 ⟨0, [(0, 16)], [], 100, 0⟩, .call 1 ⟨1, 16, 0, 16, 100, 0⟩, .write 0]).node.lfs = 1000
+    ∧ (seqCalls ⟨0, [some 16, some 0], [], 900, 0⟩
+       [.release 0 ⟨0, [(0, 16)], [], 100, 0⟩, .call 1 ⟨1, 16, 0, 16, 100, 0⟩, .write 0]).1.lfs = 900 := by decide
 
 open RPVerif.NodeList in
 /-- giving a slot back to its node restores precisely what was taken: occupations of all cores and
